@@ -84,8 +84,23 @@ def check_stream(rec: Rec, case: dict) -> None:
     msg_edges = set(case.get("edges") or [])
     label = case.get("cls", "valid")
 
+    def only_later(quiet, quiet_cuts) -> bool:
+        """One run rejected, the other is still waiting for the end of a line / header block: is the verdict merely later?
+        Complete the pending element for the quiet run; it must then reject too without delivering anything more."""
+        for suffix in (b"\r\n\r\n", b"\r\n", b"\n\r\n\r\n"):
+            probe = drive(pk, stream + suffix, tuple(quiet_cuts) + (n,), **kw)
+            if probe.error is not None and len(probe.messages) == len(quiet.messages):
+                return True
+        return False
+
     def compare(o, cuts) -> None:
         if (o.error is not None) != (one.error is not None):
+            quiet, qc = (one, ()) if one.error is None else (o, () if cuts == "bytewise" else cuts)
+            if cuts == "bytewise" and quiet is o:
+                qc = tuple(range(1, n))
+            if quiet.eof_error is None and only_later(quiet, qc):
+                rec.label("reject-only-later")
+                return
             raise Violation(
                 "rejected-depends-on-cuts" + ("/limit" if (o.limit or one.limit) else ""),
                 f"{kind} {case.get('limits')} class={label} cuts={cuts}: one read -> {describe(one)}; cut -> {describe(o)}",
